@@ -7,7 +7,11 @@ pub fn tables(input: &Value) -> Value {
 	use acme_common::crypto::{HashFunction, JwsSignatureAlgorithm, KeyType};
 	// ACME error types: the URN suffixes come from the harness (extracted from error.rs's text)
 	let mut errors = vec![];
-	for s in input["error_suffixes"].as_array().cloned().unwrap_or_default() {
+	for s in input["error_suffixes"]
+		.as_array()
+		.cloned()
+		.unwrap_or_default()
+	{
 		let s = s.as_str().unwrap_or("").to_string();
 		let urn = if s.is_empty() {
 			"urn:example:not-an-acme-error".to_string()
@@ -18,15 +22,28 @@ pub fn tables(input: &Value) -> Value {
 		errors.push(json!([s, format!("{e:?}"), e.is_recoverable()]));
 	}
 	// key types and signature algorithms
-	let key_names = ["rsa2048", "rsa4096", "ecdsa-p256", "ecdsa-p384", "ecdsa-p521", "ed25519", "ed448"];
-	let alg_names = ["HS256", "HS384", "HS512", "RS256", "ES256", "ES384", "ES512", "Ed25519", "Ed448"];
+	let key_names = [
+		"rsa2048",
+		"rsa4096",
+		"ecdsa-p256",
+		"ecdsa-p384",
+		"ecdsa-p521",
+		"ed25519",
+		"ed448",
+	];
+	let alg_names = [
+		"HS256", "HS384", "HS512", "RS256", "ES256", "ES384", "ES512", "Ed25519", "Ed448",
+	];
 	let mut keys = vec![];
 	for k in key_names.iter() {
 		if let Ok(kt) = k.parse::<KeyType>() {
 			let mut compat = vec![];
 			for a in alg_names.iter() {
 				if let Ok(alg) = a.parse::<JwsSignatureAlgorithm>() {
-					compat.push(json!([alg.to_string(), kt.check_alg_compatibility(&alg).is_ok()]));
+					compat.push(json!([
+						alg.to_string(),
+						kt.check_alg_compatibility(&alg).is_ok()
+					]));
 				}
 			}
 			keys.push(json!({"name": kt.to_string(), "default_alg": kt.get_default_signature_alg().to_string(), "compat": compat}));
@@ -64,17 +81,26 @@ pub fn tables(input: &Value) -> Value {
 		env,
 	};
 	let members = |v: Value| -> Vec<String> {
-		let mut k: Vec<String> = v.as_object().map(|o| o.keys().cloned().collect()).unwrap_or_default();
+		let mut k: Vec<String> = v
+			.as_object()
+			.map(|o| o.keys().cloned().collect())
+			.unwrap_or_default();
 		k.sort();
 		k
 	};
 	let hook_members = json!([
-		["post-operation", members(serde_json::to_value(&po).unwrap())],
+		[
+			"post-operation",
+			members(serde_json::to_value(&po).unwrap())
+		],
 		["challenge", members(serde_json::to_value(&ch).unwrap())],
 		["file", members(serde_json::to_value(&fs).unwrap())],
 	]);
 	let chall = |t: crate::identifier::IdentifierType| -> Vec<String> {
-		t.supported_challenges().iter().map(|c| c.to_string()).collect()
+		t.supported_challenges()
+			.iter()
+			.map(|c| c.to_string())
+			.collect()
 	};
 	json!({
 		"acme_errors": errors,
